@@ -15,6 +15,8 @@ import (
 	"flag"
 	"fmt"
 	"os"
+	"runtime"
+	"sort"
 	"strings"
 	"sync"
 	"time"
@@ -347,6 +349,111 @@ func bodyRolling(p *part, seconds int) {
 	}
 }
 
+// caller: 8 goroutines released together onto the SAME call site with a cold frame cache (the package state is
+// restored before every round), then onto different ones; every record must carry the location of its own
+// statement, in default and in fast mode.
+type locRec struct {
+	log.AppenderBase
+}
+
+var (
+	locMu    sync.Mutex
+	locItems []string
+)
+
+func (a *locRec) Start() error { return nil }
+func (a *locRec) Stop()        {}
+func (a *locRec) Append(e *log.Event) {
+	locMu.Lock()
+	if len(e.Fields) > 0 {
+		locItems = append(locItems, fmt.Sprintf("%d@%s:%d", e.Fields[0].Num, e.File, e.Line))
+	}
+	locMu.Unlock()
+}
+func (a *locRec) Write(b []byte) {}
+
+func init() { log.RegisterPlugin[locRec]("RLoc", log.PluginTypeAppender) }
+
+func here() (string, int) {
+	_, f, l, _ := runtime.Caller(1)
+	return f, l
+}
+
+var raceSites = []func(id int) string{
+	func(id int) string {
+		f, l := here()
+		log.Info(context.Background(), tags[0], log.Int("id", id))
+		return fmt.Sprintf("%d@%s:%d", id, f, l+1)
+	},
+	func(id int) string {
+		f, l := here()
+		log.Warn(context.Background(), tags[1], log.Int("id", id))
+		return fmt.Sprintf("%d@%s:%d", id, f, l+1)
+	},
+	func(id int) string {
+		f, l := here()
+		log.Error(context.Background(), tags[0], log.Int("id", id))
+		return fmt.Sprintf("%d@%s:%d", id, f, l+1)
+	},
+	func(id int) string {
+		f, l := here()
+		log.Record(context.Background(), log.InfoLevel, tags[1], 1, log.Int("id", id))
+		return fmt.Sprintf("%d@%s:%d", id, f, l+1)
+	},
+}
+
+func bodyCaller(p *part, rounds int, fast bool) {
+	for r := 0; r < rounds; r++ {
+		log.VerifReset() // cold caches
+		log.Stdout = &bytes.Buffer{}
+		if err := log.Refresh(map[string]string{"appender.l.type": "RLoc", "logger.root.type": "Logger", "logger.root.level": "INFO", "logger.root.appenderRef.ref": "l",
+			"enableCaller": "true", "fastCaller": fmt.Sprint(fast)}); err != nil {
+			p.fail("setup", "caller", err.Error())
+			return
+		}
+		locMu.Lock()
+		locItems = nil
+		locMu.Unlock()
+		var wg sync.WaitGroup
+		var mu sync.Mutex
+		var want []string
+		start := make(chan struct{})
+		for g := 0; g < 8; g++ {
+			wg.Add(1)
+			go func(g int) {
+				defer wg.Done()
+				<-start
+				a := raceSites[r%len(raceSites)](r*100 + g*2)
+				b := raceSites[(r+g)%len(raceSites)](r*100 + g*2 + 1)
+				mu.Lock()
+				want = append(want, a, b)
+				mu.Unlock()
+			}(g)
+		}
+		close(start)
+		wg.Wait()
+		log.Destroy()
+		locMu.Lock()
+		got := append([]string(nil), locItems...)
+		locMu.Unlock()
+		sort.Strings(got)
+		sort.Strings(want)
+		if strings.Join(got, ",") != strings.Join(want, ",") {
+			for i := range want {
+				if i >= len(got) || got[i] != want[i] {
+					g := "(missing)"
+					if i < len(got) {
+						g = got[i]
+					}
+					p.fail("wrong-location-under-concurrency", fmt.Sprintf("fast=%v", fast), fmt.Sprintf("round %d: record %q, the calling statement is %q", r, g, want[i]))
+					break
+				}
+			}
+		}
+		p.Executions += 16
+	}
+}
+
 func main() {
 	fs := flag.NewFlagSet("run", flag.ExitOnError)
 	prop := fs.String("prop", "", "property")
@@ -389,6 +496,11 @@ func main() {
 			for _, pol := range []log.BufferFullPolicy{log.BufferFullPolicyBlock, log.BufferFullPolicyDiscard, log.BufferFullPolicyDiscardOldest} {
 				pol := pol
 				add(fmt.Sprintf("%s/free-running-race/async/policy=%d", strings.ToLower(*prop), pol), fmt.Sprintf("6 producers x %d items (sampling, -race)", rounds*3), func(p *part) { bodyAsync(p, rounds*3, pol) })
+			}
+		case "C11":
+			for _, fast := range []bool{false, true} {
+				fast := fast
+				add(fmt.Sprintf("c11/free-running-race/same-site/fast=%v", fast), fmt.Sprintf("%d rounds: 8 goroutines released onto one cold call site, then onto different ones (sampling, -race)", rounds/2), func(p *part) { bodyCaller(p, rounds/2, fast) })
 			}
 		case "C13":
 			add("c13/free-running-race/rolling", "4 writers across real 1-second boundaries (sampling, -race)", func(p *part) {
